@@ -177,6 +177,23 @@ def r2_validate_before_commit(ctx):
                       f"{what} can happen before the check `{test[:60]}` ran: a refused entry leaves the container partly modified", instance=test[:40])
     missing = sorted(set(kinds.values()) - seen)
     ctx.check(not missing, "C16.R2", f, f.node, "all five documented refusals present", f"refusal(s) no longer present: {missing}", construct="refusal inventory")
+    # what "unsupported value type" means: the Python type of the value - of the first element for a list - must be a plain number type.
+    # (A nested list or a 2-D array is refused because its first element is a list; a test on a numpy dtype would accept it, with a
+    # recorded shape (len(v),) that misdescribes what is stored.)
+    from ..astq import Canon, unify
+    L = Canon(f.node).lines(False, True)
+    b = unify(L, ["?vt = [...]", "?st = type(?v)", "if isinstance(?v, list)", "?st = None if len(?v) == 0 else type(?v[0])", "if ?st not in ?vt"])
+    in_order = b is not None and all(b[f"#{i}"] < b[f"#{i + 1}"] for i in range(1, 4))
+    if in_order:
+        wl = [ln for ln in L if ln.startswith(b["vt"] + " = [")][0]
+        items = [x.strip() for x in wl[wl.index("[") + 1:wl.rindex("]")].split(",") if x.strip()]
+        bad = [x for x in items if x in ("list", "tuple", "np.ndarray", "torch.Tensor", "object", "str", "bool", "type(None)", "dict")]
+        ctx.check(not bad, "C16.R2", f, f.node, f"supported value types are plain number types {items}", f"the supported value types include {bad}: nested / non-numeric values are accepted", construct="value-type test")
+    else:
+        text = "; ".join(ln for ln in L if "scalar_type" in ln or "dtype" in ln or "asarray" in ln)[:400]
+        ctx.form("C16.R2", f, f.node, text, set(), ["type("], "value-type test on the Python type of the value / of its first element",
+                 "the value-type test no longer looks at the Python type of the value (of its first element for a list): a nested list or a 2-D array has a numeric dtype too and is "
+                 "accepted, stored with a recorded shape (len(v),) that misdescribes it", forbidden=[r"asarray\(", r"\.dtype\b", r"np\.array\("], construct="value-type test")
 
 
 def _loop_header_dominates(cfg, hdr, c):
